@@ -191,7 +191,7 @@ def _main(a, prop, seed, t0, scratch):
             with open(path, "w") as f:
                 json.dump({"property": prop, "harness": r["harness"], "label": v["label"], "kind": v.get("kind"), "inputs": v.get("inputs"),
                            "info": v.get("info"), "replay_result": v.get("replay"), "trace": v.get("trace"), "repo_head": repo.git_head()}, f, indent=1, default=str)
-            viol_lines.append("VIOLATION property=%s replay=%s   # %s :: %s" % (prop, path, r["harness"], v["label"]))
+            viol_lines.append("VIOLATION property=%s replay=%s   # %s :: %s%s" % (prop, path, r["harness"], v["label"], (" [float replay fails: %s]" % "; ".join(map(str, v["float_replay_fails"]))) if v.get("float_replay_fails") else ""))
         per_h.append({k: r.get(k) for k in ("harness", "paths", "infeasible", "sym_decisions", "obligations", "trivial", "discharged", "queries", "witness_validated", "budget", "wall_s")}
                      | {"inconclusive": len(r.get("inconclusive", [])), "spurious": len(r.get("spurious", [])), "violations": len(r.get("violations", [])), "solver_time": round(r.get("solver_time", 0.0), 2)}
                      | ({"extra": r["extra"]} if "extra" in r else {}))
